@@ -6,6 +6,7 @@ package main
 
 import (
 	"go/types"
+	"strings"
 
 	"golang.org/x/tools/go/ssa"
 )
@@ -56,6 +57,9 @@ func (s compSet) add(c sComp) bool {
 func (s compSet) addAll(o compSet) bool {
 	ch := false
 	for _, c := range o {
+		if strings.HasPrefix(c.Name, "local.") {
+			continue // a callee's private locals are invisible to its callers
+		}
 		if s.add(c) {
 			ch = true
 		}
@@ -92,8 +96,47 @@ func mapSComps(mt *types.Map, out compSet) {
 	out.add(sComp{Name: k + ".len", Kind: scMapLen, M: mt})
 }
 
+// localPrefix: the component prefix for memory of a non-escaping local alloc
+// (go/ssa marks allocs whose address does not leave the function Heap=false).
+func localPrefix(v ssa.Value) string {
+	for {
+		switch a := v.(type) {
+		case *ssa.Alloc:
+			if !a.Heap {
+				return "local." + a.Name() + ":"
+			}
+			return ""
+		case *ssa.FieldAddr:
+			// only through by-value nesting (a sub-struct of the local itself)
+			v = a.X
+		case *ssa.IndexAddr:
+			if _, ok := a.X.Type().Underlying().(*types.Pointer); !ok {
+				return "" // element of a slice: not the local's own storage
+			}
+			v = a.X
+		default:
+			return ""
+		}
+	}
+}
+
+func prefixAll(pfx string, in compSet, out compSet) {
+	for _, c := range in {
+		if pfx != "" && (c.Kind == scScalar || c.Kind == scElems) {
+			c.Name = pfx + c.Name
+		}
+		out.add(c)
+	}
+}
+
 // addrComps: components written by a store through addr.
-func addrComps(addr ssa.Value, out compSet) {
+func addrComps(addr ssa.Value, out0 compSet) {
+	pfx := localPrefix(addr)
+	out := out0
+	if pfx != "" {
+		out = compSet{}
+		defer func() { prefixAll(pfx, out, out0) }()
+	}
 	elem := addr.Type().Underlying().(*types.Pointer).Elem()
 	switch a := addr.(type) {
 	case *ssa.FieldAddr:
@@ -120,7 +163,13 @@ func directWrites(in ssa.Instruction, out compSet) {
 		addrComps(x.Addr, out)
 	case *ssa.Alloc:
 		elem := x.Type().(*types.Pointer).Elem()
-		compsOfStore(elem, cellComp(elem), out)
+		if pfx := localPrefix(x); pfx != "" {
+			tmp := compSet{}
+			compsOfStore(elem, cellComp(elem), tmp)
+			prefixAll(pfx, tmp, out)
+		} else {
+			compsOfStore(elem, cellComp(elem), out)
+		}
 	case *ssa.MakeSlice:
 		elem := x.Type().Underlying().(*types.Slice).Elem()
 		if isStruct(elem) {
